@@ -26,9 +26,25 @@ def c17List (args : Json) : Except String Json := do
     match (← e.getArr?).toList with
     | [r, v] => pure (← r.getNat?, ← (← v.getArr?).toList.mapM (·.getStr?))
     | _ => throw "bad pair")
-  let col := LK.Attr.expandAlign n ps
+  let lead := match getArr args "lead" with | .ok l => (l.mapM (fun (x : Json) => x.getStr?)).toOption.getD [] | .error _ => []
+  let vt := if (getStr args "variant").toOption == some "asIs" then LK.Attr.Variant.asIs else LK.Attr.Variant.repaired
+  let col := LK.Attr.expandAlignRaw vt n lead ps
   pure (Json.arr ((List.range n).map (fun r => match col.get r with
     | some l => Json.arr (l.map Json.str).toArray | none => Json.null)).toArray)
+
+def c17Dense (args : Json) : Except String Json := do
+  let n ← getNat args "n"
+  let ps ← (← getArr args "pairs").mapM (fun e => do
+    match (← e.getArr?).toList with
+    | [r, Json.null] => pure (← r.getNat?, (none : Option (List String)))
+    | [r, v] => pure (← r.getNat?, some (← (← v.getArr?).toList.mapM (·.getStr?)))
+    | _ => throw "bad pair")
+  let vt := if (getStr args "variant").toOption == some "repaired" then LK.Attr.Variant.repaired else LK.Attr.Variant.asIs
+  let col := LK.Attr.addDense vt n ps
+  let layout := match col with | .fixed _ => "fixed" | .listy _ => "list"
+  let registered := match vt, col with | .asIs, .fixed _ => false | _, _ => true     -- the as-is fast path returns before the ColumnSpec is stored
+  pure (Json.mkObj [("layout", Json.str layout), ("registered", Json.bool registered), ("rows", Json.arr ((List.range n).map (fun r => match col.get r with
+    | some l => Json.arr (l.map Json.str).toArray | none => Json.null)).toArray)])
 
 /-! C05 -/
 def c05ArraySplit (args : Json) : Except String Json := do
